@@ -15,7 +15,7 @@ LONG_N, LONG_CAP = 110, 80
 
 def run(tier, seed):
     ck = Check("C05", tier, seed + 3000)
-    build("dom_replay", "prog_runner", "fixpo_runner")
+    build("dom_replay", "prog_runner", "fixpo_runner", "inter_runner")
     doms = [d for d in domops.all_domains()]
     box, univ = 2, 12
     # (1) chains
@@ -147,6 +147,40 @@ def run(tier, seed):
         q["runs"] = [p["runs"][t["run"] - 1]]
         ck.violation("analysis run does not terminate within the watchdog limit: domain %s config %s" % (t["dom"], json.dumps(q["runs"][0])),
                      {"program": q})
+    # (3b) termination of inter-procedural analysis runs: random call graphs (30% recursive), self / mutual recursion, and
+    # recursion whose base case is never met (the exit of the function stays unreachable while its argument grows)
+    from checks import c09, intersound
+    import intergen
+    ni = 24 if tier == "quick" else 300
+    ips = []
+    for i in range(ni):
+        fam = ck.rng.choice([intergen.program, intergen.program, intergen.countdown_program, intergen.mutual_program,
+                             intergen.diverging_program, intergen.diverging_program])
+        q = fam(ck.rng, 400000 + i)
+        q["runs"] = [c09.td_config(ck.rng, d) for d in ("intervals", "split_dbm", "split_oct", "dis_intervals", "term_int", "ric")]
+        for r in q["runs"]:
+            if q.get("recursive"):
+                r["rec"] = ck.rng.choice([1, 1, 0])
+        if not q.get("family") == "diverging":      # (bottom-up analysis needs an exit block that the function reaches)
+            q["runs"] += [c09.bu_config(ck.rng, d, b) for d, b in (("intervals", "split_dbm"), ("split_dbm", "split_dbm"))]
+        ips.append(q)
+    wdi = vlib.workdir("c05-inter")
+    ipp, iop = os.path.join(wdi, "p.ndjson"), os.path.join(wdi, "o.ndjson")
+    vlib.write_ndjson(ipp, ips)
+    rc, out = vlib.sh([os.path.join(vlib.BUILD, "bin", "inter_runner"), ipp, iop], timeout=3000, env={"VH_STEP_TIMEOUT": 30})
+    if rc != 0:
+        raise vlib.Broken("inter_runner failed (%d): %s" % (rc, out[-1500:]))
+    irecs = vlib.read_ndjson(iop)
+    ck.cov["inter_analysis_runs"] = len(irecs)
+    ck.cov["traces_validated_against_impl"] += sum(1 for x in irecs if "err" not in x)
+    nonterm = [x for x in irecs if x.get("err") == "timeout" or (x.get("err") == "crash" and x.get("status") == 1011)]
+    for t in nonterm[:5]:
+        p = next(x for x in ips if x["id"] == t["id"])
+        q = dict(p)
+        q["runs"] = [p["runs"][t["run"] - 1]]
+        ck.violation("inter-procedural analysis run does not terminate (%s): config %s" %
+                     ("watchdog" if t["err"] == "timeout" else "stack exhausted by the analysis (SIGSEGV)", json.dumps(q["runs"][0])),
+                     {"program": q, "kind": "inter"})
     # (4) design level: the iterator model terminates
     cs = c06.gen_configs(ck.rng, "quick")[:3000 if tier == "quick" else 10632]
     for i, c in enumerate(cs):
